@@ -34,6 +34,7 @@ U = {
     "C": "http://c/",
     "P": "http://www.w3.org/ns/prov#",
     "X": "http://www.w3.org/2001/XMLSchema#",
+    "XI": "http://www.w3.org/2001/XMLSchema-instance",
 }
 PROV_URI = U["P"]
 AMBIG = object()
